@@ -348,6 +348,56 @@ func genC04(c *Cfg, emit func([]string)) {
 		nHist, maxTx = 12000, 10
 	}
 	users := []string{"u0", "u1", "u2"}
+	// exhaustive family on one key: the key is absent or committed by an earlier batch; then every
+	// sequence of 3 (thorough: 4) transactions over an alphabet of atomic bodies runs in ONE batch or
+	// task list, followed by a reader. This is where a cache layer that mishandles
+	// overwrite-then-delete, delete-then-put, failed writers or empty values shows.
+	alphabet := []string{"put:x:2", "put:x:", "del:x", "get:x", "put:x:3;fail", "del:x;get:x", "put:x:4;get:x", "del:x;panic"}
+	depth := 3
+	if c.Thorough() {
+		depth = 4
+	}
+	nExh := 0
+	var rec func(prefix []string)
+	rec = func(prefix []string) {
+		if len(prefix) == depth {
+			for _, initial := range []string{"", "put:x:1"} {
+				for ri, route := range []string{"batch", "tasks"} {
+					if !c.Thorough() && (nExh+ri)%2 == 1 {
+						continue
+					}
+					h := []string{"reset"}
+					if initial != "" {
+						h = append(h, "submit s0 script u0 "+initial, "batch s0")
+					}
+					all := append(append([]string{}, prefix...), "get:x")
+					if route == "batch" {
+						var syms []string
+						for j, sc := range all {
+							sym := fmt.Sprintf("t%d", j+1)
+							h = append(h, fmt.Sprintf("submit %s script %s %s", sym, users[j%3], sc))
+							syms = append(syms, sym)
+						}
+						h = append(h, "batch "+strings.Join(syms, " "))
+					} else {
+						var ts []string
+						for j, sc := range all {
+							ts = append(ts, fmt.Sprintf("k%d,script,%s,%s", j+1, users[j%3], sc))
+						}
+						h = append(h, "tasks "+strings.Join(ts, " "))
+					}
+					h = append(h, "ledger")
+					emit(h)
+				}
+				nExh++
+			}
+			return
+		}
+		for _, a := range alphabet {
+			rec(append(append([]string{}, prefix...), a))
+		}
+	}
+	rec(nil)
 	for i := 0; i < nHist; i++ {
 		h := []string{"reset"}
 		for _, u := range users {
@@ -407,8 +457,8 @@ func genC04(c *Cfg, emit func([]string)) {
 		}
 		emit(h)
 	}
-	c.Rule = fmt.Sprintf("%d histories of 1..3 batches / task lists of 0..%d transactions by 3 senders who are also each other's recipients; bodies are scripts of 0..6 put/put-empty/delete/read/event/balance-move steps over 3 keys, one third ending in a failure or a panic after having written; batch id lists contain duplicates and unknown ids in shuffled order; observed per transaction: error class or sorted writes, events, accounting records and result, and the ledger (script keys, balances, pending records) after each batch. non-trivial = contains a batch or task list; distinct = sha256", nHist, maxTx)
-	c.Extra = map[string]any{"histories": nHist}
+	c.Rule = fmt.Sprintf("(a) exhaustive on one key: every sequence of %d transactions over the bodies {put, put-empty, delete, read, put-then-fail, delete-then-read, put-then-read, delete-then-panic} plus a final reader, in one batch or task list, the key absent or committed beforehand (%d cases); (b) %d histories of 1..3 batches / task lists of 0..%d transactions by 3 senders who are also each other's recipients; bodies are scripts of 0..6 put/put-empty/delete/read/event/balance-move steps over 3 keys, one third ending in a failure or a panic after having written; batch id lists contain duplicates and unknown ids in shuffled order; observed per transaction: error class or sorted writes, events, accounting records and result, and the ledger (script keys, balances, pending records) after each batch. non-trivial = contains a batch or task list; distinct = sha256", depth, nExh, nHist, maxTx)
+	c.Extra = map[string]any{"histories": nHist, "exhaustive_single_key": nExh}
 }
 
 func genC05(c *Cfg, emit func([]string)) {
